@@ -150,6 +150,12 @@ impl UserDefinedDataReader {
         is_new
     }
 
+    pub fn get_requested_deadline_missed_status(&mut self) -> RequestedDeadlineMissedStatus {
+        let status = self.requested_deadline_missed_status.clone();
+        self.requested_deadline_missed_status.total_count_change = 0;
+        status
+    }
+
     pub fn get_requested_incompatible_qos_status(&mut self) -> RequestedIncompatibleQosStatus {
         let status = self.requested_incompatible_qos_status.clone();
         self.requested_incompatible_qos_status.total_count_change = 0;
